@@ -26,10 +26,11 @@ Section C14.
 Variable S : Type.
 Variable react : S -> mid -> mstate -> json -> option mstate * list json.
 Variable decode_src : json -> option S.
+Variable resolves : S -> bool.
 Variable src_eqb : S -> S -> bool.
 Variable ord : forall A : Type, list (mid * A) -> list (mid * A).
 Hypothesis ord_perm : forall A l, Permutation (ord A l) l.
-Local Notation process_msg := (process_msg S react decode_src src_eqb ord).
+Local Notation process_msg := (process_msg S react decode_src resolves src_eqb ord).
 Local Notation wf := (wf_crew S).
 
 (** every processed message occurrence is presented exactly once to every
@@ -40,7 +41,7 @@ Theorem C14_exactly_once : forall fuel c msg c' res,
   forall rd, In rd (res_trace S res) -> mixes_captain (rd_msg S rd) = false ->
   forall m, count_occ string_dec (rd_recips S rd) m
             = if addressed (can_see S (rd_before S rd)) (rd_msg S rd) m then 1 else 0.
-Proof. exact (exactly_once S react decode_src src_eqb ord ord_perm). Qed.
+Proof. exact (exactly_once S react decode_src resolves src_eqb ord ord_perm). Qed.
 
 (** unconditionally: never twice, only to machines the message names, and
     only machines that were presented the message emit *)
@@ -50,7 +51,7 @@ Theorem C14_at_most_once_only_named : forall fuel c msg c' res,
   NoDup (rd_recips S rd)
   /\ (forall m, In m (rd_recips S rd) -> In m (to_machines S ord (rd_before S rd) (rd_msg S rd)))
   /\ (forall m, In m (map fst (rd_batches S rd)) -> In m (rd_recips S rd)).
-Proof. exact (at_most_once_only_named S react decode_src src_eqb ord ord_perm). Qed.
+Proof. exact (at_most_once_only_named S react decode_src resolves src_eqb ord ord_perm). Qed.
 
 (** the processed occurrences are the submitted message followed by every
     emitted message, each once, round by round (breadth first), batch by
@@ -59,7 +60,7 @@ Proof. exact (at_most_once_only_named S react decode_src src_eqb ord ord_perm). 
 Theorem C14_feedback : forall fuel c msg c' res,
   wf c -> process_msg fuel c msg = Done (c', res) ->
   map (rd_msg S) (res_trace S res) = msg :: flat_map (batch_msgs S) (res_trace S res).
-Proof. exact (feedback S react decode_src src_eqb ord). Qed.
+Proof. exact (feedback S react decode_src resolves src_eqb ord). Qed.
 
 (** Result.Emitted holds every emitted message exactly once, in processing
     order, in non-empty batches; the batches of a round are, up to the map
@@ -73,14 +74,14 @@ Theorem C14_reported_once : forall fuel c msg c' res,
      Permutation (rd_batches S rd)
                  (map (fun m => (m, emissions_of S react (rd_before S rd) m (rd_msg S rd)))
                       (filter (fun m => negb (is_service m)) (rd_recips S rd))).
-Proof. exact (reported_once S react decode_src src_eqb ord ord_perm). Qed.
+Proof. exact (reported_once S react decode_src resolves src_eqb ord ord_perm). Qed.
 
 (** the crews the theorems speak about: everything a history reaches *)
 Theorem C14_reachable_crews_wf : forall fuel h c store,
-  run_history S react decode_src src_eqb ord fuel (init_crew S, []) h = Done (c, store) -> wf c.
+  run_history S react decode_src resolves src_eqb ord fuel (init_crew S, []) h = Done (c, store) -> wf c.
 Proof.
   intros fuel h c store.
-  exact (run_history_wf S react decode_src src_eqb ord fuel h (init_crew S) [] c store (init_wf S)).
+  exact (run_history_wf S react decode_src resolves src_eqb ord fuel h (init_crew S) [] c store (init_wf S)).
 Qed.
 End C14.
 
@@ -116,7 +117,7 @@ Proof.
   exists c, store.
   destruct (r_process_msg 50 c c14_msg) as [[c' res]| |] eqn:HP.
   - exists c', res. split; [reflexivity|]. split.
-    + eapply (C14_reachable_crews_wf rcfg rreact rdecode rcfg_eqb ord_id). exact H.
+    + eapply (C14_reachable_crews_wf rcfg rreact rdecode rresolves rcfg_eqb ord_id). exact H.
     + split; [reflexivity|].
       vm_compute in H. injection H as <- <-. vm_compute in HP. injection HP as <- <-.
       vm_compute. split; reflexivity.
